@@ -34,7 +34,7 @@ SPMAP = {s: i + 1 for i, s in enumerate(cio.SYMBOLS)}
 MODEL_INVS = ["TypeOK", "InvOrderIsPermutation", "InvSameCrystal", "InvSameMoments", "InvOrder",
               "InvGroupingIsTrait", "InvIdempotent", "InvForcesPaired", "InvNotRefused", "InvRefusedIffReordered",
               "InvForcesPairedSameOrder", "InvMispairedOnlyUnchecked", "InvSymPaired", "InvConvertCrystal",
-              "InvConvertible"]
+              "InvConvertible", "InvZeroRef", "InvFixedRange"]
 
 CFG_MODEL = """INIT Init
 NEXT Next
@@ -69,7 +69,7 @@ def run_structure_model(ctx):
     ctx.extra["structure_model"] = dict(max_len=maxlen, states=res.distinct, coverage=cov,
                                         every_action_fired=all(cov.get(a, 0) > 0 for a in
                                                                ("Choose", "Order", "Write", "Read", "Displace",
-                                                                "Collect", "Agree")))
+                                                                "Collect", "ZeroRef", "Agree")))
     # convert_crystal_structure: every ordered pair of interfaces, species sequences <= 4 (<= 5 thorough)
     cl = 4 if ctx.quick else 5
     res = ctx.tlc("MC_Calculators", cfg_text=CFG_MODEL % (cl, ""), extra_files={"MC_Calculators.tla": MC_MODEL_CONVERT},
@@ -129,6 +129,7 @@ def realise(abs_cell, nprng, offsets=True, edge=False, ncl=False, scale=5.0):
 
 ERR = dict(status="error", atoms=[], latticeOK=False, frameOK=False)
 NOFS = dict(status="none", forces=[], dispOK=False)
+NOREF = dict(kind="own", p=[], e=0)
 NOMODE = dict(dtype=1, fz=False, sym=False)
 
 
@@ -144,16 +145,17 @@ def rt_result(calc, orig, back, idmap=None):
     return dict(status="ok", atoms=abs_atoms(atoms), latticeOK=p["latticeOK"], frameOK=p["frameOK"]), p["margin"]
 
 
-def event(kind, calc, abs_cell, result, fs=None, tag="", route="api", ocalc="", ncl=False, mode=None, orbit=None):
+def event(kind, calc, abs_cell, result, fs=None, tag="", route="api", ocalc="", ncl=False, mode=None, orbit=None,
+          zref=None):
     return dict(kind=kind, calc=calc, cell=[dict(sp=a["sp"], id=a["id"], mom=a["mom"]) for a in abs_cell],
                 result=result, fs=fs or NOFS, tag=tag, route=route, ocalc=ocalc, ncl=bool(ncl),
-                mode=dict(mode or NOMODE), orbit=list(orbit or []))
+                mode=dict(mode or NOMODE), orbit=list(orbit or []), zref=dict(zref or NOREF))
 
 
 def ev_to_tla(d):
     """event -> TLA+ record of CalculatorsTrace"""
     return to_tla(dict(n=d["n"], kind=d["kind"], route=d["route"], ecalc=d["calc"], ocalc=d["ocalc"], ecell=d["cell"],
-                       ncl=d["ncl"], emode=d["mode"], eorbit=d["orbit"], eres=d["result"], fs=d["fs"]))
+                       ncl=d["ncl"], emode=d["mode"], eorbit=d["orbit"], ezref=d["zref"], eres=d["result"], fs=d["fs"]))
 
 
 def MOM_OF(i):      # MomOf of Calculators.tla
@@ -308,6 +310,29 @@ def force_tokens(rows, table, tol=None, own=None):
     return toks, worst
 
 
+def reference_variants(n, own, nprng):
+    """foreign perfect-supercell reference files: permutations fixing k of n atoms for every possible k
+    (line j lists atom p[j]), one atom displaced, all displaced"""
+    out = []
+    seen = {tuple(own)}
+    for k in range(0, n - 1):
+        fixed = set(int(x) for x in nprng.choice(n, size=k, replace=False)) if k else set()
+        rest = [i for i in range(n) if i not in fixed]
+        p = list(range(n))
+        for i, j in zip(rest, rest[1:] + rest[:1]):      # a cycle on the others: none of them stays
+            p[i] = j
+        p = [x + 1 for x in p]
+        if tuple(p) not in seen:
+            seen.add(tuple(p))
+            out.append(dict(kind="perm", p=p, e=0))
+    ident = list(range(1, n + 1))
+    if tuple(ident) not in seen:                          # own order is a grouping: the dataset order is foreign too
+        out.append(dict(kind="perm", p=ident, e=0))
+    out.append(dict(kind="one", p=[], e=int(nprng.integers(1, n + 1))))
+    out.append(dict(kind="all", p=[], e=0))
+    return out
+
+
 def supercell_pipeline(ctx, seqs, nprng, smat=((2, 0, 0), (0, 1, 0), (0, 0, 1)), dtype=1, fz=False,
                        moments=None, calcs=None):
     """unit cell -> Phonopy supercell + displacements (type 1: one atom per cell; type 2:
@@ -391,6 +416,7 @@ def supercell_pipeline(ctx, seqs, nprng, smat=((2, 0, 0), (0, 1, 0), (0, 0, 1)),
                         if k == 0:      # output of the perfect supercell: the residual forces, in file order
                             ff = [resid[t - 1] if 1 <= t <= n else np.array([7.0, 7.0, 7.0]) for t in toks]
                             fvec = None
+                            ref_own = list(toks)
                         else:
                             # force token id -> vector (zero sum over the atoms of this cell: most parsers
                             # subtract the drift); token 0 = "none of them"
@@ -425,6 +451,30 @@ def supercell_pipeline(ctx, seqs, nprng, smat=((2, 0, 0), (0, 1, 0), (0, 0, 1)),
                                             orbit=list(range(1, n + 1)),
                                             tag=tag + " + create_FORCE_SETS(type %d%s)" % (dtype, ", fz" if fz else "")))
                         nfs += 1
+                    if fz and calc == "vasp" and all(1 <= t <= n for t in ref_own):
+                        # --fz with a FOREIGN reference file (ZeroRef of Calculators.tla): atoms listed in another
+                        # order (fixing k of the n atoms), one atom / all atoms at displaced positions
+                        for zref in reference_variants(n, ref_own, nprng):
+                            lines = zref["p"] if zref["kind"] == "perm" else ref_own
+                            pos = np.array([sc.scaled_positions[a_ - 1] for a_ in lines])
+                            if zref["kind"] == "all":
+                                pos = pos + 0.05
+                            elif zref["kind"] == "one":
+                                pos[lines.index(zref["e"])] += 0.05
+                            refcell = PhonopyAtoms(symbols=[sc.symbols[a_ - 1] for a_ in lines], cell=sc.cell,
+                                                   scaled_positions=pos)
+                            emit_vasprun("vasprun-ref.xml", refcell, [resid[a_ - 1] for a_ in lines])
+                            if os.path.exists("FORCE_SETS"):
+                                os.remove("FORCE_SETS")
+                            fsv = collect_force_sets(calc, ["vasprun-ref.xml"] + fs_files[1:], phyml, ph, fs_rows, True, margins)
+                            what = "%s%s" % (zref["kind"], (" fixing %d of %d" % (sum(1 for i_, a_ in enumerate(lines) if a_ == i_ + 1), n))
+                                             if zref["kind"] == "perm" else "")
+                            for (acell, r, tag, _fv), fs in zip(fs_rows, fsv):
+                                events.append(event("forces", calc, acell, r, fs=fs, route="sc", ncl=ncl, mode=mode,
+                                                    orbit=list(range(1, n + 1)), zref=zref,
+                                                    tag=tag + " + create_FORCE_SETS(type %d, fz, reference: %s)" % (dtype, what)))
+                                nfs += 1
+                            ctx.count(("fz-ref", tuple(seq), dtype, zref["kind"], tuple(zref["p"]), zref["e"]))
     return events, margins, nfs
 
 
@@ -627,8 +677,8 @@ def conversions(ctx, seqs, nprng, dist):
 JUDGE_NAMES = ["ImplNoError", "ImplSameCrystal", "ImplSameMoments", "ImplOrder", "ImplLattice", "ImplFrame",
                "ImplForcesNoError", "ImplForcesPaired", "ImplNotRefused", "ConformsOrder", "ConformsForces",
                "ImplForcesPairedSameOrder", "ImplDisplacementsKept", "ImplSymPaired", "ImplConvertible",
-               "ImplConvertCrystal"]
-MACHINE_INVS = ["TInvSameCrystal", "TInvOrder", "TInvForcesPaired", "TInvConvert", "TInvSym"]
+               "ImplConvertCrystal", "ImplZeroRef"]
+MACHINE_INVS = ["TInvSameCrystal", "TInvOrder", "TInvForcesPaired", "TInvConvert", "TInvSym", "TInvZeroRef"]
 
 CFG_TRACE = """INIT TInit
 NEXT TNext
@@ -825,7 +875,7 @@ def run_unit_routes(ctx, rows, ref, bases, fscale, dist, sq):
         lf = cu.evaluate(rows[calc]["dist"])
         ff = cu.evaluate([a - b for a, b in zip(rows[calc]["fcsi"], rows["vasp"]["fcsi"])])
         other = "qe" if calc == "vasp" else "vasp"
-        combos = [(r, "none") for r in cu.ROUTES]
+        combos = [(r, "none") for r in cu.ROUTES if not (ctx.quick and r == "arg")]   # arg/none: the replay above
         if ctx.quick:      # NAC modes rotate over routes and seeds; every (calculator, NAC mode) is met by seeds 0,1,2
             combos += [(cu.ROUTES[(ci + ctx.seed + k) % 4], "params") for k in (0, 2)]
             if ci % 3 == ctx.seed % 3:
@@ -935,7 +985,11 @@ def run_units(ctx):
             worst = max(d0) / TOL_EXACT
             if nac:
                 dW = dist(cu.physical_observables(ref, calc, lf, ff, method="wang"), baseW)
-                dG = dist(cu.physical_observables(ref, calc, lf, ff, method="gonze", thermal=False), baseG)
+                # Gonze-Lee (slow): quick tier rotates it over the calculators by seed (all of them in seeds 0,1,2)
+                if ctx.quick and cio.CALCS.index(calc) % 3 != ctx.seed % 3:
+                    dG = (0.0, 0.0, 0.0)
+                else:
+                    dG = dist(cu.physical_observables(ref, calc, lf, ff, method="gonze", thermal=False), baseG)
                 phys["sameLOTO"] = max(dW) < TOL_EXACT and max(dG) < TOL_GONZE
                 phys_detail.update(wang=dW, gonze=dG)
                 worst = max(worst, max(dW) / TOL_EXACT, max(dG) / TOL_GONZE)
